@@ -163,8 +163,9 @@ def cnv_lengthorpercent(attribute, arg, element):
     return arg
 
 def cnv_list_linkage_type(attribute, arg, element):
-    if arg not in ('selection','selection-indices'):
-        raise ValueError( "'%s' is not either 'selection' or 'selection-indices'" % arg)
+    # ODF 1.2 spells it selection-indexes, ODF 1.1 selection-indices
+    if arg not in ('selection','selection-indices','selection-indexes'):
+        raise ValueError( "'%s' is not either 'selection' or 'selection-indexes'" % arg)
     return str(arg)
 
 def cnv_metavaluetype(attribute, arg, element):
